@@ -18,7 +18,7 @@ ASSUMPTIONS = [
 NSHARDS = {"quick": 32, "thorough": 64}
 BUDGET_S = {"quick": 200, "thorough": 1500}
 MIN_HITS = {
-    'quick': {"exh2": 65536, "exh1": 256, "grammar_accepted": 500, "trunc_case": 100, "prefix": 30, "encode": 20, "tx_embed": 200},
+    'quick': {"exh2": 32768, "exh1": 128, "grammar_accepted": 2625, "trunc_case": 22287, "prefix": 51, "encode": 43, "tx_embed": 1203},
     'thorough': {"exh2": 39321, "exh1": 153, "grammar_accepted": 256015, "trunc_case": 507756, "prefix": 61, "encode": 53, "tx_embed": 102633},
 }
 
@@ -133,6 +133,16 @@ def cases(ctx):
     # random bytes
     for _ in range(200 if thorough else 20):
         yield {"k": "script", "hex": gen.rbytes(r, r.randrange(1, 40)).hex(), "tag": "random"}
+
+
+def extra_stages(tier, seed, res):
+    """thorough only: libFuzzer finder on the parse/serialise fixed point; its artifacts and corpus are re-judged here against the reference tokenizer"""
+    if tier != "thorough":
+        return []
+    from . import C09
+
+    seeds = [b"\x00" + bytes.fromhex(x) for x in ("76a914" + "11" * 20 + "88ac", "6351675268", "4c0301020300", "63646868", "4d0300aabbcc")]
+    return C09.fuzz_stage(__name__, tier, seed, "roundtrip", 120, lambda data, cls: ([{"k": "script", "hex": data[1:].hex(), "tag": "random"}] if data and data[0] & 1 == 0 else []), seeds=seeds, max_len=1024)
 
 
 def judge_script(ctx, case, raw, lib_ok, lib_bytes, lib_tokens, via):
